@@ -108,3 +108,35 @@ func HookBool(name string) bool {
 	}
 	return false
 }
+
+// ---------------------------------------------------------------- R9: UUIDs
+
+// UUID replaces satori/go.uuid.UUID and google/uuid.UUID in the instrumented
+// copy: names that jiva derives from random UUIDs (automatic snapshots, replica
+// identities) take part in sorted map iteration, so they must be a function of
+// the run's seed and of the (deterministic) order in which they are drawn.
+type UUID [16]byte
+
+func (u UUID) String() string {
+	return fmt.Sprintf("%x-%x-%x-%x-%x", u[0:4], u[4:6], u[6:8], u[8:10], u[10:16])
+}
+
+func NewUUID() UUID {
+	var u UUID
+	w := Cur()
+	if w == nil {
+		panic("simrt.NewUUID outside a world")
+	}
+	gn := ""
+	if g := CurG(); g != nil && g.Node != nil {
+		gn = g.Node.Name
+	}
+	c := w.Counter("uuid:" + gn)
+	a, b := w.Rand(fmt.Sprintf("uuid:%s:%d:a", gn, c)), w.Rand(fmt.Sprintf("uuid:%s:%d:b", gn, c))
+	for i := 0; i < 8; i++ {
+		u[i], u[8+i] = byte(a>>(8*i)), byte(b>>(8*i))
+	}
+	u[6] = (u[6] & 0x0f) | 0x40
+	u[8] = (u[8] & 0x3f) | 0x80
+	return u
+}
